@@ -367,14 +367,14 @@ async def sum(iterable: AnyIterable[Any], start: Any = 0) -> Any:
     """
     Sum of ``start`` and all elements in the (async) iterable
     """
-    if isinstance(start, str):
-        raise TypeError("sum() can't sum strings [use ''.join(seq) instead]")
-    if isinstance(start, bytes):
-        raise TypeError("sum() can't sum bytes [use b''.join(seq) instead]")
-    if isinstance(start, bytearray):
-        raise TypeError("sum() can't sum bytearray [use b''.join(seq) instead]")
     total = start
     async with ScopedIter(iterable) as item_iter:
+        if isinstance(start, str):
+            raise TypeError("sum() can't sum strings [use ''.join(seq) instead]")
+        if isinstance(start, bytes):
+            raise TypeError("sum() can't sum bytes [use b''.join(seq) instead]")
+        if isinstance(start, bytearray):
+            raise TypeError("sum() can't sum bytearray [use b''.join(seq) instead]")
         async for item in item_iter:
             total = total + item
     return total
